@@ -231,6 +231,8 @@ def _gen_status_keys(r: random.Random, p_int: float) -> list:
     for _ in range(n):
         if r.random() < p_int:
             k = r.choice([200, 201, 404, 500, 204])
+        elif r.random() < p_int / 3:
+            k = r.choice([1.5, True, 200.0])          # YAML `1.5:` / `true:` / `200.0:` - still rejected (`code must be a string`)
         else:
             k = r.choice(["200", "201", "404", "default", "2XX", "500", "4XX"])
         if k not in ks:
@@ -299,7 +301,8 @@ def _gen_entry(r: random.Random, path: str, key: str, p_int: float, p_raise: flo
                 v["content"] = {"application/json": {"schema": {"type": r.choice(["string", "integer"])}}}
             resp[sk] = v
         node["responses"] = resp
-        mop["responses"] = [{"s": sk} if isinstance(sk, str) else {"i": sk} for sk in ks]
+        mop["responses"] = [{"s": sk} if isinstance(sk, str) else {"i": sk} if (isinstance(sk, int) and not isinstance(sk, bool)) else {"b": json.dumps(sk)}
+                            for sk in ks]
     if r.random() < 0.3:
         node["summary"] = "s"
     return node, mop
@@ -653,10 +656,12 @@ def _eval_case(case: dict, scratch: str) -> list:
             n = out.count((p, mu))
             if n != 1:
                 resp = op.get("responses", {})
-                if any(not isinstance(k, str) for k in resp):
-                    cls = "int-status-key-drops-operation"
+                if any(not isinstance(k, (str, int)) or isinstance(k, bool) for k in resp):
+                    cls = "float-or-bool-status-key-drops-operation"      # observation F16b (never generated by the oracle's documents)
                 elif op.get("operationId") == "" and resp:
                     cls = "empty-operation-id-drops-operation"
+                elif any(not isinstance(k, str) for k in resp):
+                    cls = "int-status-key-drops-operation"                 # F16, repaired: unexpected from now on
                 else:
                     cls = "operation-dropped"
                 fail(cls, {"operation": [p, mu], "ir_count": n,
